@@ -62,7 +62,29 @@ def check_state(ctx, static, state, where, case, scale_one=True):
     return ok
 
 
+def check_static(ctx, case, static):
+    """what __init__ hands to iterate(): the prior is applied to exactly the unconstrained roots
+    (parent of some edge, child of none, lower != upper constraint), by node id whatever the numbering"""
+    con = np.asarray(static["constraints"], dtype=float)
+    fixed = con[:, 0] == con[:, 1]
+    n = len(fixed)
+    has_parent = np.zeros(n, dtype=bool)
+    has_child = np.zeros(n, dtype=bool)
+    for p, c in static["edges"]:
+        has_parent[c] = True
+        has_child[p] = True
+    free = np.asarray(static["free"], dtype=bool)
+    if np.any(free & fixed):
+        ctx.oracle_fail("prior-on-fixed-node", "unconstrained_roots contains node %d whose age is fixed"
+                        % int(np.flatnonzero(free & fixed)[0]), {"case": case, "where": "static"})
+        return
+    exp = has_child & ~has_parent & ~fixed
+    ctx.corr("unconstrained_roots", bool(np.array_equal(free, exp)),
+             "impl %r expected %r" % (np.flatnonzero(free).tolist(), np.flatnonzero(exp).tolist()), replay={"case": case})
+
+
 def oracle_recorded(ctx, case, rec):
+    check_static(ctx, case, rec["static"])
     for it, st in enumerate(rec.get("states", [])):
         check_state(ctx, rec["static"], st, "iterate", case)
 
@@ -244,7 +266,7 @@ def replay(ctx, data):
     elif where.startswith("date"):
         date_run(ctx, case)
     else:
-        import os
         rec = E.record_all([case])[0]
-        oracle_recorded(ctx, case, rec)
+        if "static" in rec:
+            oracle_recorded(ctx, case, rec)
     return len(ctx.oracle_fails) == before
